@@ -93,7 +93,7 @@ def build_program(pq, d, gates, losskinds, rec_hist, ps, measured=None):
     return inp, ins, name
 
 
-def impl_law(pq, simclass, ins, d, trials=1, shots=1, cutoff=None, max_paths=60000):
+def _impl_law(pq, simclass, ins, d, trials=1, shots=1, cutoff=None, max_paths=60000):
     """exact law of result.samples of the real simulator: {outcome: probability}, aborted mass, number of paths, logs"""
     from piquasso.api.exceptions import InvalidSimulation
 
@@ -111,15 +111,33 @@ def impl_law(pq, simclass, ins, d, trials=1, shots=1, cutoff=None, max_paths=600
                 r = sim.execute(pq.Program(instructions=ins), shots=shots)
             except InvalidSimulation:
                 return ("abort",)
+            except SP.Unsupported:
+                raise
+            except Exception as e:  # noqa  -- the sampler itself fails on a path of positive probability
+                return ("raises", type(e).__name__, str(e)[:80])
             return tuple(tuple(int(x) for x in s) for s in r.samples)
         finally:
             np.random.default_rng = orig
     with warnings.catch_warnings():
         warnings.simplefilter("ignore")
         res = SP.enumerate_paths(run, max_paths=max_paths)
+    failing = [(o, w) for o, w, _ in res if o and o[0] == "raises"]
+    if failing:
+        raise SamplerRaises(failing[0][0][1], failing[0][0][2], sum(w for _, w in failing))
     acc, tot, rej = SP.law(res, accept=lambda o: o != ("abort",))
     bad_pmf = [info for _, _, log in res for kind, probs, c, info in log if kind == "choice" and info and abs(info["p_sum"] - 1.0) > 1e-9]
     return acc, tot, rej, len(res), bad_pmf
+
+
+def impl_law(pq, simclass, ins, d, **kw):
+    """_impl_law, with a failing sampler turned into a reported violation by the caller through LAST_RAISE"""
+    return _impl_law(pq, simclass, ins, d, **kw)
+
+
+class SamplerRaises(Exception):
+    def __init__(self, cls, msg, mass):
+        super().__init__(f"{cls}: {msg} (on paths of total probability {mass:.6f})")
+        self.cls, self.mass = cls, mass
 
 
 def compare_laws(ctx, key, what, got, acc_mass, expected, replay, tol=1e-9):
@@ -190,6 +208,9 @@ def part_chain_sampler(ctx, pq, quick, rng):
             ctx.case((inp, tuple(name)), nontrivial=len(law) > 1)
             try:
                 acc, tot, rej, npaths, bad = impl_law(pq, pq.PassiveSimulator, ins, d, trials=1)
+            except SamplerRaises as e_:
+                ctx.report((key if 'key' in locals() else f'{pid}:law:Passive') + ':sampler-raises:' + e_.cls, f"the sampler raises on a path of positive probability: {e_}", replay)
+                continue
             except SP.Unsupported as e:
                 ctx.notes.setdefault("unsupported", []).append(str(e))
                 continue
@@ -217,7 +238,11 @@ def part_chain_sampler(ctx, pq, quick, rng):
             # retries are independent of the aborted trial: with two trials allowed the conditional law is unchanged
             if post and rej > 1e-12 and counters["two_trial"] < (40 if quick else 400) and npaths <= 400:
                 counters["two_trial"] += 1
-                acc2, tot2, rej2, np2, _ = impl_law(pq, pq.PassiveSimulator, ins, d, trials=2)
+                try:
+                    acc2, tot2, rej2, np2, _ = impl_law(pq, pq.PassiveSimulator, ins, d, trials=2)
+                except SamplerRaises as e_:
+                    ctx.report(key + ":sampler-raises:" + e_.cls, f"the sampler raises in a second trial: {e_}", replay)
+                    continue
                 counters["paths"] += np2
                 got2 = {o[0]: w for o, w in acc2.items()}
                 if abs(rej2 - rej * rej) > 1e-9:
@@ -237,6 +262,28 @@ def part_spec_witness(ctx, quick):
 
 
 # ------------------------------------------------------------------------------------------------------------
+def _binomial_detector(eta, nmax=4):
+    return np.array([[math.comb(m, n) * eta ** n * (1 - eta) ** (m - n) if n <= m else 0.0 for m in range(nmax + 1)] for n in range(nmax + 1)])
+
+
+DETECTORS = {"binomial(3/4)": _binomial_detector(0.75),
+             "saturating": np.array([[1.0, 0.0, 0.0, 0.0, 0.0], [0.0, 1.0, 0.25, 0.125, 0.0625], [0.0, 0.0, 0.75, 0.875, 0.9375]])}
+
+
+def detector_law(law, P):
+    """detector efficiency matrix P[detected, actual] applied independently per mode to a law over actual outcomes"""
+    out = {}
+    for actual, p in law.items():
+        per_mode = [[(n, P[n, m]) for n in range(P.shape[0]) if P[n, m] > 0] for m in actual]
+        for combo in itertools.product(*per_mode):
+            o = tuple(c[0] for c in combo)
+            w = p
+            for c in combo:
+                w *= c[1]
+            out[o] = out.get(o, 0.0) + w
+    return out
+
+
 def born_marginal(probs, idx):
     out = {}
     for v, p in probs.items():
@@ -281,6 +328,9 @@ def part_reference_state(ctx, pq, quick, rng):
                 ctx.case((inp, tuple(name), sub), nontrivial=len(exp) > 1)
                 try:
                     acc, tot, rej, npaths, bad = impl_law(pq, pq.PassiveSimulator, ins, d, trials=1)
+                except SamplerRaises as e_:
+                    ctx.report((key if 'key' in locals() else f'{pid}:law:Passive') + ':sampler-raises:' + e_.cls, f"the sampler raises on a path of positive probability: {e_}", replay)
+                    continue
                 except SP.Unsupported as e:
                     ctx.notes.setdefault("unsupported", []).append(str(e))
                     continue
@@ -300,6 +350,43 @@ def part_reference_state(ctx, pq, quick, rng):
                     continue
                 if not compare_laws(ctx, key, f"PassiveSimulator sampling of modes {sub} after {name} on {inp}", got, tot - rej, exp, replay, tol=1e-8):
                     ctx.validated()
+            # imperfect detectors: binomial efficiency 3/4 and a saturating detector; law = detector matrix applied mode by mode to the Born law
+            sub = rng.choice(subsets)
+            for dname, P in DETECTORS.items():
+                exp = detector_law(born_marginal(probs, sub), P)
+                ins = ins0 + [pq.ImperfectParticleNumberMeasurement(detector_efficiency_matrix=P).on_modes(*sub)]
+                key = f"C02:law:Passive:imperfect:{dname}:" + ("nonuniform-loss" if lossy else "lossless")
+                replay = {"input": inp, "steps": name, "measured": sub, "detector": dname}
+                ctx.case((inp, tuple(name), sub, dname), nontrivial=len(exp) > 1)
+                try:
+                    acc, tot, rej, npaths, bad = impl_law(pq, pq.PassiveSimulator, ins, d, trials=1)
+                except SamplerRaises as e_:
+                    ctx.report((key if 'key' in locals() else f'{pid}:law:Passive') + ':sampler-raises:' + e_.cls, f"the sampler raises on a path of positive probability: {e_}", replay)
+                    continue
+                except (SP.Unsupported, NotImplementedCalculation) as e:
+                    ctx.notes.setdefault("unsupported", []).append(str(e)[:80])
+                    continue
+                counters["imperfect"] = counters.get("imperfect", 0) + 1
+                counters["paths"] += npaths
+                if abs(tot - 1.0) > 1e-9 or bad:
+                    ctx.report(key + ":mass", f"decision probabilities do not add up to 1 ({tot:.12f}) with the {dname} detector on {sub} after {name} on {inp}", replay)
+                    continue
+                got = {o[0]: w for o, w in acc.items()}
+                if not compare_laws(ctx, key, f"PassiveSimulator sampling with the {dname} detector on modes {sub} after {name} on {inp}", got, tot - rej, exp, replay, tol=1e-8):
+                    ctx.validated()
+                try:
+                    with warnings.catch_warnings():
+                        warnings.simplefilter("ignore")
+                        rn = pq.PassiveSimulator(d=d).execute(pq.Program(instructions=ins), shots=None)
+                    gotn = {}
+                    for br in rn.branches:
+                        o = tuple(int(x) for x in br.outcome)
+                        gotn[o] = gotn.get(o, 0.0) + float(br.frequency)
+                    compare_laws(ctx, key + ":shots-none", f"PassiveSimulator shots=None weights with the {dname} detector on modes {sub} after {name} on {inp}", gotn, 1.0, exp, replay, tol=1e-8)
+                except NotImplementedCalculation:
+                    pass
+                except Exception as e:  # noqa
+                    ctx.report(key + f":shots-none:raises:{type(e).__name__}", f"shots=None with the {dname} detector raised {type(e).__name__}: {str(e)[:100]} after {name} on {inp}", replay)
             # categorical primitive of the Fock simulators: the probability map handed to it (lossless circuits only: pure states)
             if not lossy:
                 for simname in ("PureFockSimulator", "FockSimulator"):
@@ -387,6 +474,9 @@ def part_distinguishable_sampler(ctx, pq, quick, rng):
                 ctx.case((ph["occ"], ph["kind"], repr(replay["overlap"]), tuple(name), post))
                 try:
                     acc, tot, rej, npaths, bad = impl_law(pq, pq.PassiveSimulator, ins2, d, trials=1, max_paths=30000)
+                except SamplerRaises as e_:
+                    ctx.report((key if 'key' in locals() else f'{pid}:law:Passive') + ':sampler-raises:' + e_.cls, f"the sampler raises on a path of positive probability: {e_}", replay)
+                    continue
                 except SP.Unsupported as e:
                     ctx.notes.setdefault("unsupported", []).append(str(e))
                     continue
@@ -538,6 +628,9 @@ def part_postselect_order(ctx, pq, quick, rng, pid="C02"):
                 ctx.case((inp, tuple(name), ms, cs, meas))
                 try:
                     acc, totw, rej, npaths, bad = impl_law(pq, pq.PassiveSimulator, ins, d, trials=1, max_paths=30000)
+                except SamplerRaises as e_:
+                    ctx.report((key if 'key' in locals() else f'{pid}:law:Passive') + ':sampler-raises:' + e_.cls, f"the sampler raises on a path of positive probability: {e_}", replay)
+                    continue
                 except (SP.Unsupported, NotImplementedCalculation) as e:
                     ctx.notes.setdefault("unsupported", []).append(str(e)[:80])
                     continue
